@@ -169,6 +169,28 @@ func runC06(c *Ctx) {
 	c.R.Check(nClose == 4, r2, "router", "four action-channel close sites", "-", fmt.Sprintf("found %d", nClose))
 	c.R.Floor(r2, 28)
 
+	const r8 = "C06.R8 no realm is created on a router that has been closed"
+	// Close shuts all realms down in one action; a realm created by a later action would never be closed and its
+	// goroutines would stay behind. Every creation of a realm outside NewRouter is an action guarded by the closed flag.
+	nAdd := 0
+	for _, s := range c.CallSites(`^router\.\(\*router\)\.addRealm$`) {
+		caller := ir.ShortName(s.Caller)
+		if caller == "router.NewRouter" {
+			continue // construction: the router goroutine has not been handed out yet
+		}
+		nAdd++
+		ok, w := ir.GuardedBy(s.Caller, s.In, clause("router not closed", F(`^\^r\.closed$`)))
+		c.R.Check(ok && w.CutCount > 0, r8, caller, "realm created only while the router is open", c.pos(s.In),
+			"addRealm is called in "+caller+" without testing the closed flag in the same action: a realm created after Close has shut the realms down is never closed")
+	}
+	c.R.Check(nAdd >= 2, r8, "router", "run-time realm creations enumerated", "-", fmt.Sprintf("found %d", nAdd))
+	c.Has(r8, "router.(*router).Close$1$1", "Close sets the closed flag in the action that shuts the realms down", `^store:\^r\.&closed=true$`, 1)
+	c.R.Floor(r8, 4)
+
+	const r7 = "C06.R7 stopping the meta session does not depend on a message getting through"
+	ruleMetaShutdownJoin(c, r7)
+	c.R.Floor(r7, 7)
+
 	const r3 = "C06.R3 ordered realm shutdown"
 	cl := rlm + "close"
 	chain := []struct{ label, re string }{
@@ -215,6 +237,43 @@ func runC06(c *Ctx) {
 	const r6 = "C06.R6 shutdown never blocks on a client"
 	ruleNonBlocking(c, r6)
 	c.R.Floor(r6, 25)
+}
+
+// ruleMetaShutdownJoin: stopping the meta session does not depend on a message getting through. The meta procedure
+// handler never blocks on the meta peer alone (the stop signal of the meta session is an alternative of every send
+// and receive), it returns on stop only after the meta session's handler has exited, and that exit is signalled by a
+// channel closed on every exit of the handler goroutine.
+func ruleMetaShutdownJoin(c *Ctx, rule string) {
+	mh := rlm + "metaProcedureHandler"
+	stopAlt := `recv:call:wamp\.\(\*Session\)\.RecvDone\(%r\.metaSess\)`
+	if fn := c.Fn(rule, mh); fn != nil {
+		n := 0
+		for _, in := range ir.Instrs(fn) {
+			d := ir.InstrDesc(in)
+			switch {
+			case strings.HasPrefix(d, "send:call:invoke:wamp.Peer.Send[%r.metaPeer]"):
+				n++
+				c.R.Bad(rule, mh, "send to the meta session can be abandoned when it is told to stop", c.pos(in),
+					"blocking send to the meta session without alternative: once the meta session's handler has exited at shutdown nobody receives, the procedure handler never finishes and realm.close waits for it forever")
+			case strings.HasPrefix(d, "select{send:call:invoke:wamp.Peer.Send[%r.metaPeer]"):
+				n++
+				c.R.Check(re(stopAlt).MatchString(d), rule, mh, "send to the meta session can be abandoned when it is told to stop", c.pos(in), "the select has no stop alternative: "+d)
+			case strings.HasPrefix(d, "val:<-call:invoke:wamp.Peer.Recv[%r.metaPeer]") || strings.HasPrefix(d, "val:next:range(call:invoke:wamp.Peer.Recv[%r.metaPeer]"):
+				n++
+				c.R.Bad(rule, mh, "receive from the meta peer can be abandoned when the meta session is told to stop", c.pos(in),
+					"blocking receive from the meta peer without alternative: the handler leaves only when a GOODBYE gets through the queue, which the stopping meta session sends without blocking (it is dropped when the queue is full)")
+			case strings.HasPrefix(d, "select{recv:call:invoke:wamp.Peer.Recv[%r.metaPeer]"):
+				n++
+				c.R.Check(re(stopAlt).MatchString(d), rule, mh, "receive from the meta peer can be abandoned when the meta session is told to stop", c.pos(in), "the select has no stop alternative: "+d)
+			}
+		}
+		c.R.Check(n >= 2, rule, mh, "sends and receives on the meta peer enumerated", c.P.FuncPos(fn), fmt.Sprintf("found %d", n))
+	}
+	stopped := clause("meta session told to stop", T(`^\(select\{recv:call:invoke:wamp\.Peer\.Recv\[%r\.metaPeer\]\(\);`+stopAlt+`\}#0 == 1\)$`))
+	c.Reach(rule, mh, "on stop the procedure handler returns only after the meta session's handler exited", ReachSpec{FromEdge: &stopped, Stop: `^val:<-%r\.metaSessDone$`, Target: "EXIT", Want: false})
+	c.Has(rule, rlm+"createMetaSession$1", "the meta session's handler signals its exit on every path", `^defer:builtin:close\(\^r\.metaSessDone\)$`, 1)
+	c.Before(rule, rlm+"createMetaSession$1", "the exit signal is registered before the handler runs", `^defer:builtin:close\(\^r\.metaSessDone\)$`, `^call:router\.\(\*realm\)\.handleInboundMessages\(`)
+	c.Has(rule, mh, "the procedure handler signals its own exit on every path", `^defer:builtin:close\(%r\.metaDone\)$`, 1)
 }
 
 // ruleShutdownFlag: the session handler reports "realm shutdown" (which makes the leave action skip the removal from
